@@ -2,6 +2,13 @@
 """meta.json for round 10 (C04, C05, C08, C12, C13, C15, C19, C20)."""
 import json, os, subprocess, sys
 T = {
+ "C05-r10m1": ("Notary.OnPersist takes only the network fee of a sponsored transaction off the depositor's record", "a NotaryAssisted transaction sent by the Notary contract with a non-zero system fee: the contract's GAS falls short of the recorded deposits by the system fee", "pkg/core/native/native_test", "TestC05Demo_NotaryDepositMatchesGAS", "missed", "deposit-charge-mirrors-burn added after"),
+ "C08-r10m1": ("Pool.Add evicts the conflicting transactions before the OracleResponse check that can still refuse the addition", "a transaction carrying both a winning Conflicts relation and an OracleResponse that loses to a pooled one", "pkg/core/mempool", "TestC08Demo_FailedOracleAddKeepsConflicts", "DETECTED add-failure-atomic", "rule existed before the seed was looked at"),
+ "C13-r10m1": ("pre-Gorgon SHL/SHR by zero pops the operand and pushes NewBigInteger of it instead of leaving it untouched", "Gorgon disabled (historic replay), shift 0, an operand that is not an Integer", "pkg/vm", "TestC13Demo_ZeroShiftPreGorgon", "missed", "operand-back-unchanged added after"),
+ "C13-r10m2": ("Struct.equalStruct recurses into nested structures before charging the comparable-size budget", "byte strings using almost the whole budget followed by nested structures", "pkg/vm", "TestC13Demo_EqualNestedStructComparableUnits", "missed", "budget-every-element added after"),
+ "C15-r10m1": ("Management.callDeployDeferrable names the invoker of deploy/update as the caller of _deploy instead of ContractManagement", "a contract whose _deploy checks the witness of the entry script or of a factory contract", "pkg/core/native/native_test", "TestC15Demo_DeployCallerIsManagement", "missed", "native-caller-is-self added after"),
+ "C19-r10m1": ("handleChainBlock resets dBFT with s.lastTimestamp (milliseconds) instead of b.Timestamp * nsInMs", "a block that arrives from the network with a timestamp ahead of the next primary's clock", "pkg/consensus", "TestC19Demo_", "missed", "timer-units added after"),
+ "C19-r10m2": ("RequestTx stores the awaited hashes unsorted while the transaction handler looks them up by binary search", "a backup missing two or more transactions of a proposal whose hashes are not ascending", "pkg/network", "TestC19Demo_", "missed", "sorted-before-binary-search added after"),
  "C20-r10m1": ("AddMPTNodes returns at the first bad node of a batch again, without the pool-empty test (the defect repaired in 0de182c, re-introduced)", "a batch whose last missing nodes are followed by a bad item", "pkg/core/statesync", "TestC20Demo_BadNodeAfterLastMPTNode", "DETECTED completion-after-progress", "rule written for finding 108 an hour before; the agent had not been told of it"),
  "C20-r10m2": ("Queue.Put increments len whenever an element is stored, also when it replaces a stale one", "a block ahead of the tip waiting in the ring, consensus moving the ledger past it, the block one ring turn later arriving before Run cleaned the slot", "pkg/network/bqueue", "TestC20Demo_StaleSlotReuseKeepsCapacity", "DETECTED ring-slot-index", "rule existed before the seed was looked at (finding 46)"),
 }
